@@ -203,6 +203,7 @@ def build_tables(eg: Eager, schema, static_of: dict) -> Optional[dict]:
         if p is not None and p in eg.gov:
             govs.append([did(eg.gov[p]), p, eg.child_index[nid], did(xe)])
     static = []
+    alt_failed: list[int] = []
     alt: dict[int, list] = {}
     table = list(eg.canon)
     seg_rows = [[d, o, s, idx] for (d, o, s), idx in segs.items()]
@@ -222,8 +223,9 @@ def build_tables(eg: Eager, schema, static_of: dict) -> Optional[dict]:
         aid = 10 ** 6 + cid + 1
         try:
             alt_errs = [canon_err(e) for e in s.iter_errors(eg.elem[cid])]
-        except Exception as ex:   # noqa
-            return None
+        except Exception as ex:   # noqa  (stand-alone validation of the chunk raised: its lazy errors cannot be predicted)
+            alt_errs = []
+            alt_failed.append(cid)
         idxs = []
         for a in alt_errs:
             table.append(a)
@@ -232,7 +234,8 @@ def build_tables(eg: Eager, schema, static_of: dict) -> Optional[dict]:
         seg_rows.append([aid, cid, 0, idxs])
         static.append([cid, aid])
     return {'root': root_decl, 'segs': seg_rows, 'govs': govs, 'static': static, 'created': [],
-            'krefs': krefs, 'idrefs': idrefs, 'table': table, 'nonlocal': nonlocal_chunks, 'ktail': ktail}
+            'krefs': krefs, 'idrefs': idrefs, 'table': table, 'nonlocal': nonlocal_chunks, 'ktail': ktail,
+            'alt_failed': alt_failed}
 
 
 def static_lookup(schema, eg: Eager) -> tuple[dict, bool]:
@@ -523,6 +526,11 @@ def check_validation(ctx: Ctx, spec, schema, xml: bytes, defects: list, reqs: li
             if c['decls'] and ('{%s}type' % L.XSI) in e.attrib:
                 from xmlschema.utils.etree import etree_getpath
                 f10_prefixes.append(norm_path(etree_getpath(e, eg.res.root, None, False, True)))
+        if tb is not None and tb['alt_failed']:
+            from xmlschema.utils.etree import etree_getpath
+            for cid in tb['alt_failed']:
+                f10_prefixes.append(norm_path(etree_getpath(eg.elem[cid], eg.res.root, None, False, True)))
+            ctx.count('nonlocal-chunk-unpredictable', len(tb['alt_failed']))
         if f10_prefixes and not same_seq:
             # C06-F10: declarations written on a depth-1 element are not in scope when it is validated lazily
             def outside(path):
@@ -543,7 +551,7 @@ def check_validation(ctx: Ctx, spec, schema, xml: bytes, defects: list, reqs: li
             else:
                 b = canon_seq([c for p, c in zip(eg.paths, eg.canon) if outside(p)])
             if sorted(a) == sorted(tuple(x) for x in b):
-                ctx.known_hit('C06-F10')
+                ctx.known_hit('C06-F2' if (tb is not None and tb['alt_failed']) else 'C06-F10')
                 ctx.count('chunk-decl-xsi-type')
                 continue
         if root_id_dup and not same_seq:
@@ -596,7 +604,16 @@ def check_validation(ctx: Ctx, spec, schema, xml: bytes, defects: list, reqs: li
                                 {'eager': list(zip(eg.paths, eg.canon)), 'lazy': lz, 'predicted-by-order-law': law_canon})
         if explained:
             # paths: compare each lazy error with the eager error it corresponds to
-            order = list(range(len(eg.errors))) if same_seq else law
+            if law is not None and law_canon == lz_canon and not tb['nonlocal'] and not tb.get('alt_failed'):
+                # equal (class, reason) pairs can hide a reordering: the order law says which eager error each
+                # lazy error corresponds to
+                order = [i for i in law]
+                idblock = sorted(i for i in order if REF_ID.search(tb['table'][i][1]))
+                if order != list(range(len(eg.errors))) and same_seq and \
+                        [i for i in order if i not in idblock] != [i for i in range(len(eg.errors)) if i not in idblock]:
+                    ctx.known_hit('C06-F1')
+            else:
+                order = list(range(len(eg.errors))) if same_seq else law
             for pos, idx in enumerate(order):
                 if idx >= len(eg.errors):
                     continue        # error of an alternative (non-governing) declaration: no eager counterpart
